@@ -65,7 +65,8 @@ def analyse(F, s, classes, stores=None):
             del ts.buffers[f]
     # evaluate every hand-written method of the struct (modular)
     for fn in F.fns_of(s):
-        if fn.derived or fn.name in ("new", "default", "fmt"):
+        if fn.derived or fn.is_ctor or (fn.name == "default" and fn.trait_short == "Default") \
+                or (fn.name == "fmt" and fn.trait_short in ("Display", "Debug")):
             continue
         if fn.path in F.helpers():
             continue  # context-bound helper: its writes are part of its callers' post-terms (inlined)
@@ -134,7 +135,7 @@ def analyse(F, s, classes, stores=None):
             t = r["heap"].get("self." + x)
             if t is not None:
                 posts[x].append((lab, t))
-        if fn.name == "new":
+        if fn.is_ctor:
             continue
     P = list(ts.len_fields)
     for x in usize_state:
